@@ -65,6 +65,7 @@ func runC18(p *core.Program, r *core.Report) {
 	c18Reload(p, r)
 	c18AtomicWrite(p, r)
 	c18Merge(p, r)
+	c18Derived(p, r)
 }
 
 func c18MapGuard(p *core.Program, r *core.Report) {
@@ -505,6 +506,169 @@ func c18AtomicWrite(p *core.Program, r *core.Report) {
 			}
 		}
 		fileProbs(r, "C18.atomic-write", c, p.Pos(fi.Decl.Pos()), probs, "temporary file in the same directory, Sync, Rename over the original")
+	}
+}
+
+// c18Derived: state derived from the configuration map follows the map. (a) A field of FileConfig
+// that holds derived data (a map or sync.Map other than the configuration map itself: a cache of parsed
+// values) is touched by every method that writes the configuration map — otherwise a getter keeps
+// answering from the old file content. (b) The modification time of the last file seen is advanced
+// only by the poller (reload and the unexported helpers it alone calls): a writer that marks its own
+// version as seen makes the poller skip it, and the observers never hear of it.
+func c18Derived(p *core.Program, r *core.Report) {
+	t := namedIn(p, "config/conffile", "FileConfig")
+	if t == nil {
+		return
+	}
+	st, ok := t.Underlying().(*types.Struct)
+	if !ok {
+		return
+	}
+	var caches []string
+	for i := 0; i < st.NumFields(); i++ {
+		f := st.Field(i)
+		if f.Name() == "m" {
+			continue
+		}
+		switch u := f.Type().Underlying().(type) {
+		case *types.Map:
+			caches = append(caches, f.Name())
+		case *types.Struct:
+			_ = u
+			if nt := namedOf(f.Type()); nt != nil && nt.Obj().Name() == "Map" && nt.Obj().Pkg() != nil && nt.Obj().Pkg().Path() == "sync" {
+				caches = append(caches, f.Name())
+			}
+		}
+	}
+	methods := p.MethodsOf(t)
+	// which methods touch which field (directly or through same-receiver helpers, one level)
+	touches := func(fi *core.FuncInfo, field string, depth int) bool { return false }
+	var touchesRec func(fi *core.FuncInfo, field string, depth int) bool
+	touchesRec = func(fi *core.FuncInfo, field string, depth int) bool {
+		if fi.Decl.Body == nil || depth > 2 {
+			return false
+		}
+		rn := recvName(fi)
+		found := false
+		ast.Inspect(fi.Decl.Body, func(n ast.Node) bool {
+			switch v := n.(type) {
+			case *ast.SelectorExpr:
+				if id, ok := ast.Unparen(v.X).(*ast.Ident); ok && id.Name == rn && v.Sel.Name == field {
+					found = true
+				}
+			case *ast.CallExpr:
+				if sel, ok := v.Fun.(*ast.SelectorExpr); ok {
+					if id, ok := ast.Unparen(sel.X).(*ast.Ident); ok && id.Name == rn {
+						for _, m := range methods {
+							if m.Obj.Name() == sel.Sel.Name && m != fi && touchesRec(m, field, depth+1) {
+								found = true
+							}
+						}
+					}
+				}
+			}
+			return !found
+		})
+		return found
+	}
+	touches = touchesRec
+	writesMap := func(fi *core.FuncInfo) bool {
+		if fi.Decl.Body == nil {
+			return false
+		}
+		rn := recvName(fi)
+		w := false
+		ast.Inspect(fi.Decl.Body, func(n ast.Node) bool {
+			as, ok := n.(*ast.AssignStmt)
+			if !ok {
+				return true
+			}
+			for _, l := range as.Lhs {
+				e := ast.Unparen(l)
+				if ix, ok := e.(*ast.IndexExpr); ok {
+					e = ast.Unparen(ix.X)
+				}
+				if sel, ok := e.(*ast.SelectorExpr); ok && sel.Sel.Name == "m" {
+					if id, ok := ast.Unparen(sel.X).(*ast.Ident); ok && id.Name == rn {
+						w = true
+					}
+				}
+			}
+			return true
+		})
+		return w
+	}
+	if len(caches) == 0 {
+		r.OK("C18.reload", "config/conffile.FileConfig derived state", "-", "no cache of derived values beside the configuration map")
+	}
+	for _, cf := range caches {
+		for _, fi := range methods {
+			if !writesMap(fi) {
+				continue
+			}
+			r.Check(touches(fi, cf, 0), "C18.reload", "config/conffile.FileConfig."+fi.Obj.Name()+" keeps "+cf+" in step", p.Pos(fi.Decl.Pos()), "the derived data is dropped or updated with the map",
+				fi.Obj.Name()+" changes the configuration map and leaves "+cf+" (data derived from the map) as it was: getters go on answering from the previous file content")
+		}
+	}
+	// (b) who advances last_file_time
+	callers := map[*core.FuncInfo][]*core.FuncInfo{}
+	for _, fi := range methods {
+		if fi.Decl.Body == nil {
+			continue
+		}
+		rn := recvName(fi)
+		ast.Inspect(fi.Decl.Body, func(n ast.Node) bool {
+			if call, ok := n.(*ast.CallExpr); ok {
+				if sel, ok := call.Fun.(*ast.SelectorExpr); ok {
+					if id, ok := ast.Unparen(sel.X).(*ast.Ident); ok && id.Name == rn {
+						for _, m := range methods {
+							if m.Obj.Name() == sel.Sel.Name {
+								callers[m] = append(callers[m], fi)
+							}
+						}
+					}
+				}
+			}
+			return true
+		})
+	}
+	var pollerOnly func(fi *core.FuncInfo, depth int) bool
+	pollerOnly = func(fi *core.FuncInfo, depth int) bool {
+		if fi.Obj.Name() == "reload" {
+			return true
+		}
+		if fi.Obj.Exported() || depth > 3 || len(callers[fi]) == 0 {
+			return false
+		}
+		for _, c := range callers[fi] {
+			if !pollerOnly(c, depth+1) {
+				return false
+			}
+		}
+		return true
+	}
+	for _, fi := range methods {
+		if fi.Decl.Body == nil {
+			continue
+		}
+		rn := recvName(fi)
+		sets := false
+		ast.Inspect(fi.Decl.Body, func(n ast.Node) bool {
+			if as, ok := n.(*ast.AssignStmt); ok {
+				for _, l := range as.Lhs {
+					if sel, ok := ast.Unparen(l).(*ast.SelectorExpr); ok && sel.Sel.Name == "last_file_time" {
+						if id, ok := ast.Unparen(sel.X).(*ast.Ident); ok && id.Name == rn {
+							sets = true
+						}
+					}
+				}
+			}
+			return true
+		})
+		if sets {
+			r.Check(pollerOnly(fi, 0), "C18.reload", "config/conffile.FileConfig."+fi.Obj.Name()+" sets last_file_time", p.Pos(fi.Decl.Pos()), "only the poller records which file version it has seen",
+				fi.Obj.Name()+" records a file version as seen although it is not (only) part of reload: the poller skips that version and the observers are not notified of it")
+		}
 	}
 }
 
